@@ -4,6 +4,7 @@ from smpl_extract.akai.akai_string import (_char_format_convert_byte, _fast_akai
                                            char_akai_to_ascii)
 from smpl_extract.akai.data_types import CharFormat, InvalidCharacter, parse_akai_tune_cents, build_akai_tune_cents
 from smpl_extract.midi import MidiNote, ScaleDegree
+from vf.util import conc
 
 CNT = [0]
 # the 41 characters of the AKAI set, from the published format notes (independent of data_types.CHAR_MAP_*):
@@ -22,7 +23,7 @@ def h_char_akai(b: int) -> int:
         return 1 if b > 0x28 else 0
     if b > 0x28:
         return 0
-    if a != ord(AKAI_ASCII[int(b)]):
+    if a != ord(AKAI_ASCII[conc(b, 0, 40)]):
         return 0
     try:
         back = _char_format_convert_byte(a, CharFormat.ASCII, CharFormat.AKAI)
@@ -65,7 +66,7 @@ def h_char_str(n: int, b0: int, b1: int, b2: int, b3: int, b4: int, b5: int, b6:
     post: _ == 1
     """
     CNT[0] += 1
-    n = int(n)
+    n = conc(n, 0, 12)
     raw = [b0, b1, b2, b3, b4, b5, b6, b7, b8, b9, b10, b11][:n]
     # per-character maps composed over a whole name, as AkaiString does (list in, list out; str/bytes are C-level)
     try:
@@ -110,7 +111,7 @@ def h_note_text(deg: int, sharp: int, octave: int) -> int:
     post: _ == 1
     """
     CNT[0] += 1
-    n = MidiNote(ScaleDegree(int(deg)), sharp == 1, int(octave))
+    n = MidiNote(ScaleDegree(conc(deg, 0, 6)), sharp == 1, conc(octave, 0, 9))
     s = n.to_string()
     m = MidiNote.from_string(s)
     return 1 if (m.scale_degree == n.scale_degree and m.is_sharp == n.is_sharp and m.octave == n.octave and m == n) else 0
